@@ -188,8 +188,21 @@ func (c *Ctx) btValidate(label string, engines []string, progs [][]bt.Op, classi
 		trace  []byte
 		events int
 	}
-	// batches of at most ~3000 events per TLC run
+	// batches of about 8000 events per TLC run (a TLC start costs a couple of seconds)
+	total := 0
+	for _, p := range progs {
+		total += len(p) + 1
+	}
 	per := 400
+	if avg := total / len(progs); avg > 0 {
+		per = 8000 / avg
+	}
+	if per < 50 {
+		per = 50
+	}
+	if per > 2000 {
+		per = 2000
+	}
 	var shards []*shard
 	for _, e := range engines {
 		for lo := 0; lo < len(progs); lo += per {
